@@ -276,24 +276,72 @@ def sample_events(path, n=2, pred=None):
 # --------------------------------------------------------------------------------------
 # generic trace-based check
 
+TRAP_NAMES = {19: "c6", 22: "f6", 43: "c3", 46: "f3"}
+LAST_BREAKDOWN = {}
+
+
 def distinct_nontrivial(paths, pred):
+    """Counts distinct non-trivial events.  The parent of every event is found by mirroring the stack
+    discipline of the trace (pop / push), so that predicates comparing an event with its parent are right
+    for probe events too.  Also fills LAST_BREAKDOWN with captures by (trap, colour, cause)."""
     seen = set()
     total = 0
+    caps = {}
     for p in paths:
+        stack = []
         with open(p, encoding="utf-8") as f:
-            prev = None
             for line in f:
                 e = json.loads(line)
                 total += 1
+                ev = e.get("ev")
+                parent = None
+                if ev == "reset":
+                    stack = [e]
+                elif ev == "act":
+                    for _ in range(e.get("pop", 0)):
+                        if stack:
+                            stack.pop()
+                    parent = stack[-1] if stack else None
+                    if e.get("push") == 1:
+                        stack.append(e)
+                    elif stack:
+                        stack[-1] = e
+                    else:
+                        stack = [e]
+                else:
+                    if ev in ("tdig", "pdig", "reobs"):
+                        for _ in range(e.get("pop", 0)):
+                            if stack:
+                                stack.pop()
+                    elif ev == "panic":
+                        stack = []
+                    continue
                 try:
-                    if e.get("ev") in ("reset", "act") and pred(e, prev):
+                    if pred(e, parent):
                         key = hashlib.blake2b(
                             json.dumps([e.get("b"), e.get("s"), e.get("st"), e.get("pp"), e.get("a"), e.get("ph")]).encode(),
                             digest_size=12).digest()
                         seen.add(key)
+                    if parent is not None and e.get("ph") == 1 and parent.get("ph") == 1 and e["a"][0] >= 1:
+                        pb, nb, a = parent["b"], e["b"], e["a"]
+                        if sum(1 for x in nb if x) < sum(1 for x in pb if x):
+                            src = a[0] - 1
+                            dest = src + {1: -8, 2: 1, 3: 8, 4: -1}[a[1]]
+                            for t, name in TRAP_NAMES.items():
+                                i = t - 1
+                                gone = (pb[i] if i != dest else pb[src]) if nb[i] == 0 else 0
+                                if nb[i] == 0 and ((i == dest and pb[src]) or (i != dest and i != src and pb[i])):
+                                    colour = "gold" if gone <= 6 else "silver"
+                                    mover_is_owner = (pb[src] <= 6) == (parent["s"] == 1)
+                                    cause = ("stepped in" if i == dest and mover_is_owner else
+                                             "pushed/pulled in" if i == dest else
+                                             "supporter stepped away" if mover_is_owner else "supporter pushed/pulled away")
+                                    k = "%s %s %s" % (name, colour, cause)
+                                    caps[k] = caps.get(k, 0) + 1
                 except Exception:
                     pass
-                prev = e
+    LAST_BREAKDOWN.clear()
+    LAST_BREAKDOWN.update(caps)
     return len(seen), total
 
 
